@@ -74,7 +74,11 @@ def _worker(args):
     from . import core
     core.capture_impl_stdout()
     Group._current = None
-    return [g.data() if isinstance(g, Group) else g for g in fn(arg)]
+    from . import covtrace
+    covtrace.start(core.REPO)
+    res = [g.data() if isinstance(g, Group) else g for g in fn(arg)]
+    covtrace.dump(str(id(arg) % 100000))
+    return res
 
 
 def parallel(fn, args, procs=16):
